@@ -952,8 +952,12 @@ fn write_array<'a, W: Write + 'a>(
 ) -> Result<(), Error> {
     let len = buf.len();
 
+    // Inside an array all elements are written under ONE constructor, so every element uses
+    // the same (32-bit) form whatever its own size is
+    let in_array = !matches!(ext_is_array_elem, IsArrayElement::False);
+
     match len {
-        0..=U8_MAX_MINUS_1 => {
+        0..=U8_MAX_MINUS_1 if !in_array => {
             if let IsArrayElement::False | IsArrayElement::FirstElement = ext_is_array_elem {
                 let code = [EncodingCodes::Array8 as u8];
                 writer.write_all(&code)?;
@@ -963,7 +967,7 @@ fn write_array<'a, W: Write + 'a>(
             let len_num = [len as u8, num as u8];
             writer.write_all(&len_num)?;
         }
-        U8_MAX..=U32_MAX_MINUS_4 => {
+        0..=U32_MAX_MINUS_4 => {
             if let IsArrayElement::False | IsArrayElement::FirstElement = ext_is_array_elem {
                 let code = [EncodingCodes::Array32 as u8];
                 writer.write_all(&code)?;
@@ -1034,14 +1038,18 @@ fn write_list<'a, W: Write + 'a>(
 ) -> Result<(), Error> {
     let len = buf.len();
 
+    // Inside an array all elements are written under ONE constructor, so every element uses
+    // the same (32-bit) form whatever its own size is
+    let in_array = !matches!(ext_is_array_elem, IsArrayElement::False);
+
     // if `len` < 255, `num` must be smaller than 255
     match len {
-        0 => {
+        0 if !in_array => {
             let code = [EncodingCodes::List0 as u8];
             writer.write_all(&code)?;
         }
         // FIXME: whether `len` should be below 255-1
-        1..=U8_MAX_MINUS_1 => {
+        1..=U8_MAX_MINUS_1 if !in_array => {
             if let IsArrayElement::False | IsArrayElement::FirstElement = ext_is_array_elem {
                 let code = [EncodingCodes::List8 as u8];
                 writer.write_all(&code)?;
@@ -1052,7 +1060,7 @@ fn write_list<'a, W: Write + 'a>(
             writer.write_all(&len_num)?;
         }
         // FIXME: whether `len` should be below u32::MAX - 4
-        U8_MAX..=U32_MAX_MINUS_4 => {
+        0..=U32_MAX_MINUS_4 => {
             if let IsArrayElement::False | IsArrayElement::FirstElement = ext_is_array_elem {
                 let code = [EncodingCodes::List32 as u8];
                 writer.write_all(&code)?;
@@ -1275,9 +1283,13 @@ fn write_map<'a, W: Write + 'a>(
 ) -> Result<(), Error> {
     let len = buf.len();
 
+    // Inside an array all elements are written under ONE constructor, so every element uses
+    // the same (32-bit) form whatever its own size is
+    let in_array = !matches!(ext_is_array_elem, IsArrayElement::False);
+
     match len {
         // FIXME: Whether `len` should be 255 - 1
-        0..=U8_MAX_MINUS_1 => {
+        0..=U8_MAX_MINUS_1 if !in_array => {
             if let IsArrayElement::False | IsArrayElement::FirstElement = ext_is_array_elem {
                 let code = [EncodingCodes::Map8 as u8];
                 writer.write_all(&code)?;
@@ -1288,7 +1300,7 @@ fn write_map<'a, W: Write + 'a>(
             writer.write_all(&len_num)?;
         }
         // FIXME: whether `len` should be u32::MAX - 4
-        U8_MAX..=U32_MAX_MINUS_4 => {
+        0..=U32_MAX_MINUS_4 => {
             if let IsArrayElement::False | IsArrayElement::FirstElement = ext_is_array_elem {
                 let code = [EncodingCodes::Map32 as u8];
                 writer.write_all(&code)?;
